@@ -72,7 +72,8 @@ def native_checks(run, n_cases):
         names = rng.sample(["zeta", "alpha", "Beta", "x9", "x10", "mass", "b", "a_1", "Z", "_k", "velocity"], k)
         for which in ("vector", "covariance"):
             cls = (common_mod.named_vector if which == "vector" else common_mod.named_covariance)("T", list(names))
-            given = {nm: float(rng.randint(-9, 9)) + 0.5 for nm in names if rng.random() < 0.6}
+            # named values include exact zeros, negative zeros and values equal to the defaults (0 for vectors, 1 on a covariance diagonal)
+            given = {nm: rng.choice([float(rng.randint(-9, 9)) + 0.5, 0.0, -0.0, 1.0, float(rng.randint(-3, 3))]) for nm in names if rng.random() < 0.6}
             run.native_runs += 1
             obj = cls(**given)
             for idx, nm in enumerate(names):
